@@ -5,7 +5,7 @@ from linear_operator.operators import MaskedLinearOperator
 from .. import settings
 from ..distributions import MultivariateNormal
 from ..likelihoods import _GaussianLikelihoodBase
-from .marginal_log_likelihood import MarginalLogLikelihood
+from .marginal_log_likelihood import _batch_prior_term, MarginalLogLikelihood
 
 
 class ExactMarginalLogLikelihood(MarginalLogLikelihood):
@@ -42,15 +42,9 @@ class ExactMarginalLogLikelihood(MarginalLogLikelihood):
             res = res.add(added_loss_term.loss(*params))
 
         # Add log probs of priors on the (functions of) parameters
-        res_ndim = res.ndim
         for name, module, prior, closure, _ in self.model.named_priors():
             prior_term = prior.log_prob(closure(module))
-            # The leading (batch) dimensions of a parameter are those of the module that owns it, and they
-            # broadcast against the batch shape of the result from the right: sum over everything else.
-            module_batch_shape = getattr(module, "batch_shape", None)
-            num_batch_dims = res_ndim if module_batch_shape is None else len(module_batch_shape)
-            num_batch_dims = min(num_batch_dims, prior_term.ndim)
-            res.add_(prior_term.view(*prior_term.shape[:num_batch_dims], -1).sum(dim=-1))
+            res.add_(_batch_prior_term(prior_term, module, res.shape))
 
         return res
 
